@@ -289,6 +289,24 @@ Proof.
   rewrite (render_document_one o _ r) by (rewrite E; exact Er). rewrite E. reflexivity.
 Qed.
 
+(* a whole document of several blocks *)
+Theorem fragment_seq_html cfg o ts :
+  fragment_config (cfg_block cfg) = true -> prose_spans (cfg_span cfg) = true -> emph_spans (cfg_span cfg) = true ->
+  inert_spans (cfg_span cfg) = true -> seq_ok_b ts = true -> forallb wf_b ts = true ->
+  render_html o (fst (fst (parse_lines cfg (text_of (join_blank (map spell ts)))))) = join [10] (map (html_f o false) ts) ++ [10].
+Proof.
+  intros Hc Hq He Hi Hs Hw. rewrite (fragment_seq_document cfg ts Hc Hq He Hi Hs Hw).
+  unfold render_html. cbn [render]. rewrite tok_seq_plain, map_map.
+  assert (E : serialize (join_items [nl] (map (fun x => render o false false (tok_of false x)) ts)) = join [10] (map (html_f o false) ts)).
+  { rewrite (serialize_join (fun x => render o false false (tok_of false x))). f_equal. apply map_ext_in. intros x Hx.
+    rewrite forallb_forall in Hw. apply (html_fragment o (depth x) x false (le_n _) (Hw x Hx)). }
+  rewrite E.
+  destruct ts as [|t r]; [discriminate|]. destruct (html_f_starts o t) as [r0 Er].
+  assert (Ej : exists r1, join [10] (map (html_f o false) (t :: r)) = 60 :: r1).
+  { cbn [map]. destruct (map (html_f o false) r) as [|y ys]; cbn [join]; rewrite Er; eexists; reflexivity. }
+  destruct Ej as [r1 Ej]. rewrite Ej. rewrite serialize_app, E, Ej. reflexivity.
+Qed.
+
 (* ---- the text as one string ---- *)
 Definition no_brk (s : str) : bool := forallb (fun c => negb (is_brk c)) s.
 
